@@ -2,6 +2,7 @@
   C09 — max_serialized_size is a sound and exact upper bound.
 -/
 import BorshModel.Lemmas.MaxSize
+import BorshModel.Lemmas.Totality
 namespace Borsh
 
 /-- Exactness: whenever a maximum is reported for a container it *is* the true maximum the
@@ -55,5 +56,47 @@ example :
     (Container.maxSerializedSize ⟨[65], [([65], .tuple [[65]])]⟩ = .error .recursive) ∧
     (Container.maxSerializedSize ⟨[65], [([65], .tuple [[66]])]⟩ = .error (.missing [66])) := by
   decide +kernel
+
+/-- **The computation never panics and never diverges**: on every container — cycles, dangling
+names, hostile widths — `max_serialized_size` returns a bound or one of its three errors.  (The
+model's only panic is fuel exhaustion; the stack of declarations is duplicate-free and made of
+defined names, so `|definitions| + 1` levels always suffice.) -/
+theorem C09_never_panics (c : Container) : c.maxSerializedSize.isPanic = false :=
+  maxSize_noPanic c (c.defs.length + 1) 1 c.decl [] (pathOk_nil c) (by simp)
+
+/-- Completeness: whenever the true maximum the schema implies is finite and fits the address
+space, it is reported — no spurious Overflow, Recursion or MissingDefinition error. -/
+theorem C09_complete (c : Container) (n : Nat) (h : c.specMax = .fin n) (hn : n < usizeLimit) :
+    c.maxSerializedSize = .ok n := by
+  have := maxSize_complete c _ 1 c.decl [] n h (by decide) (by simpa using hn)
+  simpa [Container.maxSerializedSize] using this
+
+/-- **Exact characterisation**: a bound is reported iff the true maximum is finite and fits the
+address space, and then it is that maximum.  Since the analysis never panics
+(`C09_never_panics`), an error is reported exactly in the remaining cases: the true maximum
+exceeds the address space, is unbounded (a cycle is reachable), or a reachable definition is
+absent. -/
+theorem C09_ok_iff (c : Container) (n : Nat) :
+    c.maxSerializedSize = .ok n ↔ (c.specMax = .fin n ∧ n < usizeLimit) := by
+  constructor
+  · intro h
+    refine ⟨C09_exact_when_ok c n h, ?_⟩
+    -- a reported bound is the result of a checked multiplication or is zero
+    exact maxSize_ok_lt c _ 1 c.decl [] n h
+  · rintro ⟨h, hn⟩; exact C09_complete c n h hn
+
+/-- an error means there is no representable bound -/
+theorem C09_error_iff (c : Container) :
+    (∃ e, c.maxSerializedSize = .error e) ↔ ¬ ∃ n, c.specMax = .fin n ∧ n < usizeLimit := by
+  constructor
+  · rintro ⟨e, he⟩ ⟨n, hn, hl⟩
+    rw [C09_complete c n hn hl] at he; cases he
+  · intro h
+    cases hr : c.maxSerializedSize with
+    | ok k => exact absurd ⟨k, (C09_ok_iff c k).mp hr⟩ h
+    | error e => exact ⟨e, rfl⟩
+    | panic p =>
+      have := C09_never_panics c
+      rw [hr] at this; simp [Res.isPanic] at this
 
 end Borsh
